@@ -198,7 +198,7 @@ def replay_file(path, quiet=False):
     with open(path) as f:
         doc = json.load(f)
     mod = load_check(doc['property'])
-    out = execute_plan(mod, doc['plan'], known_open=set(), cap_s=300.0, keep_events=True)
+    out = execute_plan(mod, doc['plan'], known_open=known_open_sigs(doc['property']), cap_s=300.0, keep_events=True)
     if out['harness']:
         return False, 'HARNESS ' + out['harness']
     sigs = [v['signature'] for v in out['violations']]
